@@ -36,6 +36,7 @@ Definition memo3 {A : Type} (n1 n2 n3 : Z) (f : Z -> Z -> Z -> A) : Z -> Z -> Z 
 Definition oadd (a b : option Z) : option Z :=
   match a, b with Some x, Some y => Some (x + y) | _, _ => None end.
 Definition osum (l : list (option Z)) : option Z := fold_right oadd (Some 0) l.
+Fixpoint zsum (l : list Z) : Z := match l with [] => 0 | x :: r => x + zsum r end.
 (* v += m where m is NaN ([true]) or 0 ([false]) *)
 Definition omask {A : Type} (v : option A) (nan : bool) : option A := if nan then None else v.
 
@@ -215,6 +216,119 @@ Definition sad_volume (inp : mc_input) (dmin dmax : Z) : Z -> Z -> Z -> option Q
 Definition ssd_volume (inp : mc_input) (dmin dmax : Z) : Z -> Z -> Z -> option Q :=
   let v := sadssd_volume_z sd_cost inp dmin dmax in
   fun r c k => omap (cost_q (i_s inp * i_s inp)) (v r c k).
+
+(* ------------------------------------------------------------------ census *)
+
+(* census_transform: (ny, nx) -> (ny - (w-1), nx - (w-1)); bit string of "window pixel > centre",
+   row-major, first pixel = most significant bit (shift = w*w - 1 downto 0) *)
+Definition census_transform (w : Z) (I : img) : img :=
+  let off := offset w in
+  fun r c =>
+    zsum (map (fun a => zsum (map (fun b =>
+       if I (r + a) (c + b) >? I (r + off) (c + off) then 2 ^ (w * w - 1 - (a * w + b)) else 0)
+       (zrange 0 w))) (zrange 0 w)).
+
+(* Census.popcount32b, on uint32 *)
+Definition popcount32b (x : Z) : Z :=
+  let x := x - Z.land (Z.shiftr x 1) 1431655765 in                     (* 0x55555555 *)
+  let x := Z.land x 858993459 + Z.land (Z.shiftr x 2) 858993459 in     (* 0x33333333 *)
+  let x := Z.land (x + Z.shiftr x 4) 252645135 in                      (* 0x0F0F0F0F *)
+  let x := x + Z.shiftr x 8 in
+  let x := x + Z.shiftr x 16 in
+  Z.land x 127.
+
+(* cv (disp, col, row) NaN; cv_crop = cv[:, off:-off, off:-off];
+   cv_crop[k, p0:p1, :] = popcount(census_left[:, p0:p1] ^ census_right_i[:, q0:q1]) with the ranges of
+   point_interval on the TRANSFORMED images (nx - 2 off columns).  Plane k indexed (row, col). *)
+Definition census_plane (inp : mc_input) (cl : img) (cr : Z -> img) (D : Z) : Z -> Z -> option Z :=
+  let ny := i_ny inp in let nx := i_nx inp in let s := i_s inp in
+  let off := offset (i_w inp) in
+  let i := i_right s D in
+  let pq := point_interval s (nx - 2 * off) (shift_width nx i - 2 * off) D in
+  let p0 := fst (fst pq) in let p1 := snd (fst pq) in let q0 := fst (snd pq) in
+  fun r c =>
+    let c' := c - off in let r' := r - off in
+    if (0 <=? r') && (r' <? ny - 2 * off) && (p0 <=? c') && (c' <? p1) && (c' <? nx - 2 * off)
+    then Some (popcount32b (Z.lxor (cl r' c') (cr i r' (q0 + (c' - p0))))) else None.
+
+Definition census_volume_z (inp : mc_input) (dmin dmax : Z) : Z -> Z -> Z -> option Z :=
+  let ny := i_ny inp in let nx := i_nx inp in let s := i_s inp in let w := i_w inp in
+  let off := offset w in
+  let nd := nb_disp s dmin dmax in
+  let Rs := shifted_images inp in
+  let cl := memo2 (ny - 2 * off) (nx - 2 * off) (census_transform w (i_L inp)) in
+  let cr := memo1 s (fun i => memo2 (ny - 2 * off) (nx - 2 * off) (census_transform w (Rs i))) in
+  let planes := memo1 nd (fun k => memo2 ny nx (census_plane inp cl cr (disp_scaled s dmin k))) in
+  let cv := fun r c k => planes k r c in
+  memo3 ny nx nd (cv_masked inp dmin dmax cv).
+
+Definition census_volume (inp : mc_input) (dmin dmax : Z) : Z -> Z -> Z -> option Q :=
+  let v := census_volume_z inp dmin dmax in
+  fun r c k => omap (cost_q 1) (v r c k).
+
+(* ------------------------------------------------------------------ zncc *)
+
+(* np.cumsum with a leading zero: cs[k] = sum of the first k elements *)
+Definition cumsum (f : Z -> Z) (k : Z) : Z := zsum (map f (zrange 0 k)).
+
+(* compute_mean_raster without the final division: cumulative sums down the rows, difference
+   [w:] - [:-w], cumulative sums along the columns, difference; the mean is this / (w*w) *)
+Definition sum_raster (w ny_ nx_ : Z) (I : img) : img :=
+  let cs_r := memo2 (ny_ + 1) nx_ (fun k c => cumsum (fun j => I j c) k) in
+  let d1 := fun r c => cs_r (r + w) c - cs_r r c in
+  let cs_c := memo2 (ny_ - w + 1) (nx_ + 1) (fun r k => cumsum (fun j => d1 r j) k) in
+  fun r c => cs_c r (c + w) - cs_c r c.
+
+(* compute_std_raster: var = E[x^2] - E[x]^2, here times w^4 (no square root in the model) *)
+Definition var_raster (w ny_ nx_ : Z) (I : img) : img :=
+  let m := sum_raster w ny_ nx_ I in
+  let m2 := sum_raster w ny_ nx_ (fun r c => I r c * I r c) in
+  fun r c => w * w * m2 r c - m r c * m r c.
+
+(* one disparity of Zncc.compute_cost_volume.  The cell is (cov, varL, varR) * w^4 (the right image
+   is the resampled one, times s: cov is also times s, varR times s*s); the cost is
+   cov / sqrt(varL * varR), and 0 when varL * varR <= 0 (apply_divide_standard). *)
+Definition zncc_plane (inp : mc_input) (Rs : Z -> img) (ml vl : img) (mr vr : Z -> img) (D : Z)
+  : Z -> Z -> option (Z * Z * Z) :=
+  let ny := i_ny inp in let nx := i_nx inp in let s := i_s inp in let w := i_w inp in
+  let off := offset w in
+  let i := i_right s D in
+  let pq := point_interval s nx (shift_width nx i) D in
+  let p0 := fst (fst pq) in let p1 := snd (fst pq) in let q0 := fst (snd pq) in
+  let p1s := Z.max p0 (p1 - 2 * off) in            (* p_std *)
+  let prod := memo2 ny (p1 - p0) (fun r j => i_L inp r (p0 + j) * Rs i r (q0 + j)) in
+  let mp := sum_raster w ny (p1 - p0) prod in
+  fun r c =>
+    let c' := c - off in let r' := r - off in
+    if (0 <=? r') && (r' <? ny - 2 * off) && (p0 <=? c') && (c' <? p1s)
+    then let j := c' - p0 in
+         Some (w * w * mp r' j - ml r' (p0 + j) * mr i r' (q0 + j), vl r' (p0 + j), vr i r' (q0 + j))
+    else None.
+
+Definition zncc_volume (inp : mc_input) (dmin dmax : Z) : Z -> Z -> Z -> option (Z * Z * Z) :=
+  let ny := i_ny inp in let nx := i_nx inp in let s := i_s inp in let w := i_w inp in
+  let off := offset w in
+  let nd := nb_disp s dmin dmax in
+  let Rs := shifted_images inp in
+  let ml := memo2 (ny - 2 * off) (nx - 2 * off) (sum_raster w ny nx (i_L inp)) in
+  let vl := memo2 (ny - 2 * off) (nx - 2 * off) (var_raster w ny nx (i_L inp)) in
+  let mr := memo1 s (fun i => memo2 (ny - 2 * off) (nx - 2 * off) (sum_raster w ny (shift_width nx i) (Rs i))) in
+  let vr := memo1 s (fun i => memo2 (ny - 2 * off) (nx - 2 * off) (var_raster w ny (shift_width nx i) (Rs i))) in
+  let planes := memo1 nd (fun k => memo2 ny nx (zncc_plane inp Rs ml vl mr vr (disp_scaled s dmin k))) in
+  let cv := fun r c k => planes k r c in
+  memo3 ny nx nd (cv_masked inp dmin dmax cv).
+
+(* ------------------------------------------------------------------ inputs on which the step raises *)
+
+(* census_transform / compute_mean_raster build arrays of shape (ny - (w-1), nx - (w-1)): a negative
+   dimension raises ValueError (census also fails, AxisError, on a transformed image without rows).
+   sad / ssd never raise. *)
+Definition mc_raises (m : measure) (ny nx w s : Z) : bool :=
+  match m with
+  | Census => (ny <? w) || (nx <? w - 1) || ((1 <? s) && (nx - 1 <? w - 1))
+  | Zncc => (ny <? w - 1)
+  | _ => false
+  end.
 
 (* attributes set by compute_cost_volume: type_measure (true = "min"), cmax *)
 Definition type_measure_min (m : measure) : bool := match m with Zncc => false | _ => true end.
